@@ -3,7 +3,7 @@
    the files of the overlay, i.e. files named by a patch of the pushed range. *)
 From Coq Require Import List ZArith NArith Bool Lia Arith.
 Import ListNotations.
-From RQ Require Import Base Apply Parser Quilt ListFacts WriterProofs QuiltProofs.
+From RQ Require Import Base Apply Parser Quilt ListFacts WriterProofs QuiltProofs TreeRollback.
 Local Open Scope N_scope.
 Local Notation length := List.length (only parsing).
 
@@ -168,4 +168,221 @@ Proof.
         -- intros Heq. apply Hni. rewrite <- Heq. apply in_map_iff. exists (k2, m2). auto.
     + intros [= <- _]. exists a1. auto.
     + intros [= <- _]. exists a1. auto.
+Qed.
+
+(* ---------- the precondition of save_all_fresh holds for every overlay a push builds ---------- *)
+
+(* `existed` is decided when a file is loaded and never changes *)
+Lemma apply_internal_existed fp (mf : mfile) d F m mf' rep :
+  Apply.apply_internal bytes bytes_eqb fp mf d F m = Ok (mf', rep) -> existed mf' = existed mf.
+Proof.
+  unfold Apply.apply_internal.
+  assert (Hsub : forall x, (match fp_kind fp, d with
+                            | Modify, _ => Apply.apply_modify bytes bytes_eqb fp mf d F m
+                            | Create, Fwd | Delete, Rev => Apply.apply_create bytes fp mf d F m
+                            | Delete, Fwd | Create, Rev => Apply.apply_delete bytes bytes_eqb fp mf d F m
+                            end) = Ok x -> existed (fst x) = existed mf).
+  { intros [mf1 rep1]. cbn [fst].
+    assert (Hm : Apply.apply_modify bytes bytes_eqb fp mf d F m = Ok (mf1, rep1) -> existed mf1 = existed mf).
+    { unfold Apply.apply_modify. destruct (Apply.phase1 _ _ _ _ _ _ _ _ _ _) as [rs| |]; cbn [bind]; try discriminate.
+      destruct m as [|prev].
+      - destruct (Apply.phase2 _ _ _ _ _ _) as [[c rs']| |]; cbn [bind]; try discriminate. intros [= <- _]. reflexivity.
+      - destruct (r_failed _); [intros [= <- _]; reflexivity|].
+        destruct (Apply.phase2 _ _ _ _ _ _) as [[c rs']| |]; cbn [bind]; try discriminate. intros [= <- _]. reflexivity. }
+    assert (Hc : Apply.apply_create bytes fp mf d F m = Ok (mf1, rep1) -> existed mf1 = existed mf).
+    { unfold Apply.apply_create. destruct (fp_hunks fp) as [|h [|h2 r]]; try discriminate.
+      destruct (Apply.rollback_skips m) as [sk| |]; cbn [bind]; try discriminate.
+      destruct sk; [intros [= <- _]; reflexivity|].
+      destruct (content mf); intros [= <- _]; reflexivity. }
+    assert (Hd : Apply.apply_delete bytes bytes_eqb fp mf d F m = Ok (mf1, rep1) -> existed mf1 = existed mf).
+    { unfold Apply.apply_delete. destruct (fp_hunks fp) as [|h [|h2 r]]; try discriminate.
+      destruct (Apply.rollback_skips m) as [sk| |]; cbn [bind]; try discriminate.
+      destruct sk; [intros [= <- _]; reflexivity|].
+      destruct (negb _); intros [= <- _]; reflexivity. }
+    destruct (fp_kind fp), d; auto. }
+  destruct (match fp_kind fp, d with Modify, _ => _ | Create, Fwd | Delete, Rev => _ | Delete, Fwd | Create, Rev => _ end)
+    as [[mf1 rep1]| |] eqn:E; cbn [bind]; try discriminate.
+  specialize (Hsub _ eq_refl). cbn [fst] in Hsub.
+  destruct m as [|prev].
+  - destruct (match d with Fwd => fp_nperm fp | Rev => fp_operm fp end); intros [= <- _]; cbn [existed]; assumption.
+  - intros [= <- _]. cbn [existed]. assumption.
+Qed.
+
+Lemma rollback_existed fp (mf : mfile) d rep mf' :
+  Apply.rollback bytes bytes_eqb fp mf d rep = Ok mf' -> existed mf' = existed mf.
+Proof.
+  unfold Apply.rollback, Apply.try_rollback. destruct (negb _); [discriminate|].
+  destruct (Apply.apply_internal _ _ _ _ _ _ _) as [[mf1 rep1]| |] eqn:E; cbn [bind]; try discriminate.
+  destruct (r_failed rep1); cbn [bind]; [discriminate|]. intros [= <-]. eapply apply_internal_existed. eassumption.
+Qed.
+
+(* files of the overlay that were not on disk when loaded are not on disk (nobody else writes) *)
+Definition loaded_ok (fs : fsys) (ov : overlay) : Prop :=
+  forall k m, ov_get k ov = Some m -> existed m = false -> is_file fs (normalize k) = false.
+
+Lemma set_loaded fs k m ov : loaded_ok fs ov -> (existed m = false -> is_file fs (normalize k) = false) ->
+  loaded_ok fs (ov_set k m ov).
+Proof.
+  intros Hov Hm k' m'. destruct (list_eq_dec N.eq_dec k k') as [<-|Hne].
+  - rewrite ov_get_set_same. intros [= <-]. assumption.
+  - rewrite ov_get_set_other by assumption. apply Hov.
+Qed.
+
+Lemma fs_read_notfound fs p : is_file fs [] = false -> fs_read fs p = inr NotFound -> is_file fs p = false.
+Proof.
+  intros Hroot. unfold fs_read. destruct p as [|c r]; [intros _; assumption|].
+  destruct (existsb _ _); [discriminate|]. unfold is_file.
+  destruct (lookup_file (c :: r) (fs_files fs)); [discriminate|reflexivity].
+Qed.
+
+Lemma get_or_load_loaded fs ov k m ov' : is_file fs [] = false ->
+  get_or_load fs ov k = ROk (m, ov') -> loaded_ok fs ov -> loaded_ok fs ov' /\ ov_get k ov' = Some m.
+Proof.
+  intros Hroot H Hov. unfold get_or_load in H. destruct (ov_get k ov) as [m0|] eqn:Eg.
+  - injection H as <- <-. auto.
+  - destruct (has_dotdot k); [discriminate|].
+    destruct (fs_read fs (normalize k)) as [f|[]] eqn:Er; try discriminate; injection H as <- <-.
+    + split; [|apply ov_get_set_same]. apply set_loaded; [assumption|]. discriminate.
+    + split; [|apply ov_get_set_same]. apply set_loaded; [assumption|]. intros _. apply fs_read_notfound; assumption.
+Qed.
+
+Lemma lift_ok {A} (x : outcome A) a : lift x = ROk a -> x = Ok a.
+Proof. destruct x; cbn; congruence. Qed.
+
+Lemma apply_one_loaded fs st index pn rev F fp ok st' : is_file fs [] = false ->
+  apply_one_file_patch fs st index pn rev F fp = ROk (ok, st') -> loaded_ok fs (a_files st) -> loaded_ok fs (a_files st').
+Proof.
+  intros Hroot. unfold apply_one_file_patch. intros H Hov.
+  destruct (choose_filename fs (a_files st) fp) as [target| |]; cbn [rbind] in H; try discriminate.
+  destruct (get_or_load fs (a_files st) target) as [[file ov1]| |] eqn:El; cbn [rbind] in H; try discriminate.
+  destruct (get_or_load_loaded _ _ _ _ _ Hroot El Hov) as [Hov1 Hg1].
+  assert (Hfile : existed file = false -> is_file fs (normalize target) = false) by (apply Hov1; assumption).
+  destruct (pf_rename fp).
+  - destruct (pf_new fp) as [newname|]; [|discriminate].
+    unfold move_out in H.
+    set (stay := {| content := []; existed := existed file; deleted := true; perm := None |}) in *.
+    set (tmp := {| content := content file; existed := false; deleted := false; perm := perm file |}) in *.
+    assert (Hov2 : loaded_ok fs (ov_set target stay ov1)) by (apply set_loaded; assumption).
+    destruct (get_or_load fs (ov_set target stay ov1) newname) as [[newfile ov3]| |] eqn:El2; cbn [rbind] in H; try discriminate.
+    destruct (get_or_load_loaded _ _ _ _ _ Hroot El2 Hov2) as [Hov3 Hg3].
+    assert (Hnew : existed newfile = false -> is_file fs (normalize newname) = false) by (apply Hov3; assumption).
+    unfold move_in in H. destruct (negb (is_nil (content newfile)) && negb (deleted newfile)).
+    + destruct (get_or_load fs ov3 target) as [[tfile ov4]| |] eqn:El3; cbn [rbind] in H; try discriminate.
+      destruct (get_or_load_loaded _ _ _ _ _ Hroot El3 Hov3) as [Hov4 Hg4].
+      assert (Ht : existed tfile = false -> is_file fs (normalize target) = false) by (apply Hov4; assumption).
+      injection H as _ <-. cbn [a_files].
+      destruct (negb (is_nil (content tfile)) && negb (deleted tfile)); apply set_loaded; assumption.
+    + destruct (lift _) as [[nf' rep]| |] eqn:Ea; cbn [rbind] in H; try discriminate.
+      injection H as _ <-. cbn [a_files]. apply set_loaded; [assumption|].
+      apply lift_ok in Ea. apply apply_internal_existed in Ea. cbn [existed] in Ea. rewrite Ea. assumption.
+  - destruct (lift _) as [[f' rep]| |] eqn:Ea; cbn [rbind] in H; try discriminate.
+    injection H as _ <-. cbn [a_files]. apply set_loaded; [assumption|].
+    apply lift_ok in Ea. apply apply_internal_existed in Ea. rewrite Ea. assumption.
+Qed.
+
+Lemma apply_file_patches_loaded fs index sp F : is_file fs [] = false -> forall fps st af failed st',
+  apply_file_patches fs st index sp F fps af = ROk (failed, st') -> loaded_ok fs (a_files st) -> loaded_ok fs (a_files st').
+Proof.
+  intros Hroot. induction fps as [|fp r IH]; intros st af failed st'; cbn [apply_file_patches].
+  - intros [= _ <-]. auto.
+  - destruct (apply_one_file_patch fs st index (sp_name sp) (sp_reverse sp) F fp) as [[ok st1]| |] eqn:E; cbn [rbind]; try discriminate.
+    intros H Hst. eapply IH; [exact H|]. eapply apply_one_loaded; eassumption.
+Qed.
+
+Lemma ov_rollback_loaded fs ov s ov' f : ov_rollback ov s = ROk (ov', f) -> loaded_ok fs ov -> loaded_ok fs ov'.
+Proof.
+  unfold ov_rollback. intros H Hov.
+  destruct (ov_get (st_final s) ov) as [file|] eqn:Eg; [|discriminate].
+  destruct (lift _) as [f1| |] eqn:El; cbn [rbind] in H; try discriminate.
+  apply lift_ok in El. apply rollback_existed in El.
+  assert (Hf1 : existed f1 = false -> is_file fs (normalize (st_final s)) = false).
+  { rewrite El. apply Hov. assumption. }
+  destruct (pf_rename (st_fp s)).
+  - unfold move_out in H.
+    set (stay := {| content := []; existed := existed f1; deleted := true; perm := None |}) in *.
+    set (tmp := {| content := content f1; existed := false; deleted := false; perm := perm f1 |}) in *.
+    assert (Hov1 : loaded_ok fs (ov_set (st_final s) stay ov)) by (apply set_loaded; assumption).
+    destruct (ov_get (st_target s) (ov_set (st_final s) stay ov)) as [old|] eqn:Eo; [|discriminate].
+    assert (Hold : existed old = false -> is_file fs (normalize (st_target s)) = false) by (apply Hov1; assumption).
+    unfold move_in in H. destruct (negb (is_nil (content old)) && negb (deleted old)); [discriminate|].
+    set (o' := {| content := content tmp; existed := existed old; deleted := false; perm := perm tmp |}) in *.
+    destruct (st_rename_undo s) as [[[od nd] np]|].
+    + assert (Hov2 : loaded_ok fs (ov_set (st_target s) (set_deleted o' od) (ov_set (st_final s) stay ov)))
+        by (apply set_loaded; assumption).
+      destruct (bytes_eqb (st_final s) (st_target s)); [injection H as <- _; assumption|].
+      match type of H with context [match ov_get (st_final s) ?o with _ => _ end] =>
+        destruct (ov_get (st_final s) o) as [nf|] eqn:En; [|discriminate] end.
+      match type of H with context [match ov_get (st_target s) ?o with _ => _ end] =>
+        destruct (ov_get (st_target s) o); [|discriminate] end.
+      injection H as <- _. apply set_loaded; [assumption|]. cbn [set_deleted_perm existed]. apply Hov2. assumption.
+    + injection H as <- _. apply set_loaded; assumption.
+  - injection H as <- _. apply set_loaded; assumption.
+Qed.
+
+Lemma render_loaded fs : forall fuel st index acc st' rejs,
+  rollback_and_render_rej fuel st index acc = ROk (st', rejs) -> loaded_ok fs (a_files st) -> loaded_ok fs (a_files st').
+Proof.
+  induction fuel as [|f IH]; intros st index acc st' rejs; cbn [rollback_and_render_rej].
+  - intros [= <- _]. auto.
+  - destruct (a_applied st) as [|s rest]; [intros [= <- _]; auto|].
+    destruct (Nat.ltb index (st_index s)); [discriminate|].
+    destruct (Nat.ltb (st_index s) index); [intros [= <- _]; auto|].
+    destruct (ov_rollback (a_files st) s) as [[ov' x]| |] eqn:Er; cbn [rbind]; try discriminate.
+    intros H Hov. pose proof (ov_rollback_loaded _ _ _ _ _ Er Hov) as Hov'.
+    destruct (r_failed (st_report s)).
+    + destruct (write_rej_bytes s) as [data| |]; cbn [rbind] in H; try discriminate. eapply IH; [exact H|assumption].
+    + eapply IH; [exact H|assumption].
+Qed.
+
+Theorem apply_series_loaded cfg db : forall series st idx fs fs' st' n rejs,
+  is_file fs [] = false ->
+  apply_series cfg db st idx series fs = (fs', ROk (st', n, rejs)) ->
+  loaded_ok fs (a_files st) -> loaded_ok fs (a_files st').
+Proof.
+  induction series as [|sp rest IH]; intros st idx fs fs' st' n rejs Hroot; cbn [apply_series].
+  - intros [= <- <- <- <-]. auto.
+  - destruct (db_get (sp_name sp) db) as [data|]; [|discriminate].
+    destruct (parse_patch data (sp_strip sp) false) as [[p|pe]| |]; try discriminate.
+    cbv [mbind mget mlift].
+    destruct (apply_file_patches fs st idx sp (c_fuzz cfg) (pp_fps p) false) as [[failed st1]| |] eqn:Ea; try discriminate.
+    intros H Hst. pose proof (apply_file_patches_loaded _ _ _ _ Hroot _ _ _ _ _ Ea Hst) as Hst1.
+    destruct failed; [|eapply IH; eassumption].
+    destruct (c_dry_run cfg); [cbn in H; injection H as _ <- _ _; assumption|].
+    destruct (rollback_and_render_rej _ st1 idx []) as [[st2 rj]| |] eqn:Er; cbn in H; try discriminate.
+    injection H as _ <- _ _. eapply render_loaded; eassumption.
+Qed.
+
+(* keys are unique in an overlay whose names denote different files *)
+Lemma in_ov_get : forall ov k m, NoDup (map fst ov) -> In (k, m) ov -> ov_get k ov = Some m.
+Proof.
+  induction ov as [|[q x] r IH]; intros k m Hnd; [intros []|]. cbn [map fst] in Hnd. inversion Hnd as [|? ? Hni Hnd']; subst.
+  intros [[= <- <-]|Hin]; cbn [ov_get].
+  - rewrite bytes_eqb_refl. reflexivity.
+  - destruct (bytes_eqb k q) eqn:E; [|apply IH; assumption].
+    apply bytes_eqb_eq in E. subst q. exfalso. apply Hni. apply in_map_iff. exists (k, m). auto.
+Qed.
+
+Lemma nodup_map_inv {A B} (f : A -> B) : forall l, NoDup (map f l) -> NoDup l.
+Proof.
+  induction l as [|a l IH]; intros H; [constructor|]. cbn [map] in H. inversion H as [|? ? Hni Hnd]; subst.
+  constructor; [|auto]. intros Hin. apply Hni. apply in_map. assumption.
+Qed.
+
+(* C15 on the model: what the save phase of a push does to the tree *)
+Theorem push_saves_fresh cfg db series fs fs1 st n rejs dm cl fs2 r :
+  is_file fs [] = false ->
+  apply_series cfg db {| a_applied := []; a_files := [] |} 0 series fs = (fs1, ROk (st, n, rejs)) ->
+  NoDup (map (fun e => normalize (fst e)) (a_files st)) ->
+  save_all dm (a_files st) cl fs1 = (fs2, r) ->
+  exists added, fs_log fs2 = fs_log fs1 ++ added /\
+                all_ops added (fun q => In q (map (fun e => normalize (fst e)) (a_files st))).
+Proof.
+  intros Hroot Ha Hnd Hs.
+  assert (Hfs : fs1 = fs) by (eapply pure_apply_series; eassumption). subst fs1.
+  eapply save_all_fresh; [exact Hnd| |exact Hs].
+  intros k m Hin Hex.
+  assert (Hl : loaded_ok fs (a_files st)).
+  { eapply apply_series_loaded; [exact Hroot|exact Ha|]. intros k0 m0. discriminate. }
+  apply (Hl k m); [|assumption]. apply in_ov_get; [|assumption].
+  apply (nodup_map_inv normalize). rewrite map_map. assumption.
 Qed.
